@@ -189,9 +189,10 @@ func rewrittenUnowned(before, after snap.Tree, owned map[string]bool) []string {
 }
 
 // judgeRelaxed: a fault hit the clean/write phase (or a system call failed somewhere). Paths the
-// generator owns may be in any state; `<own file>.dump` may appear in the working directory; the
+// generator owns may be in any state; new regular files may appear directly inside the target;
+// `<own file>.dump` may appear in the working directory; the
 // target directory and its missing parents may or may not have been created. Everything else is untouched.
-func judgeRelaxed(before, after snap.Tree, owned map[string]bool, cwd string, ref []RefFile) []string {
+func judgeRelaxed(before, after snap.Tree, owned map[string]bool, cwd string, ref []RefFile, target string) []string {
 	dump := map[string]bool{}
 	for _, f := range ref {
 		p := f.Name + ".dump"
@@ -203,6 +204,11 @@ func judgeRelaxed(before, after snap.Tree, owned map[string]bool, cwd string, re
 	var out []string
 	for _, c := range snap.Diff(before, after, true) {
 		if owned[c.Path] || (c.Kind == "created" && dump[c.Path]) {
+			continue
+		}
+		// a new regular file directly inside the target (a half-written or temporary file of an interrupted
+		// write phase) is the generator's own business; anything it did not create is not
+		if c.Kind == "created" && c.After != nil && c.After.Type == "file" && path.Dir(c.Path) == target {
 			continue
 		}
 		out = append(out, c.String())
